@@ -4,7 +4,7 @@ from ..common import Machinery, log, read_ndjson
 from ..inputs import REF, mutate, sam
 
 PIPE = ["toma", "tomawrap", "samvar", "variants", "snps", "udlist"]
-POST = ["closest", "closestn", "closestntable", "toprank", "topranktable"]
+POST = ["closest", "closestn", "closestd", "closestntable", "toprank", "topranktable"]
 
 CLI = {  # command -> (args, outfile flag position handled by "@OUT")
     "toma": ["sam", "toMultiAlign", "-s", "@in.sam", "-o", "@OUT"],
